@@ -13,7 +13,7 @@ PROPERTY = "C09"
 LEVEL = "exploration"
 BUDGET_S = {"quick": 50, "thorough": 900}
 FLOOR = {"quick": 3000, "thorough": 100000}
-MUST_REACH = ("table_entries_judged", "protocol_numbers_judged", "splitter_cases_judged", "number_roundtrips_judged", "platform_switch_histories", "config_level_renderings")
+MUST_REACH = ("table_entries_judged", "protocol_numbers_judged", "splitter_cases_judged", "number_roundtrips_judged", "platform_switch_histories", "config_level_renderings", "protocol_reassign_histories")
 RULE = ("complete enumeration: {asa,ios,nxos} x version strings {'', '15', '15.2(02)SY', '16.09.06', '9.3(8)'} x {tcp,udp} x "
         "every table name (name -> number vs oracle/names.py; number -> rendered name -> parsed back), every protocol "
         "number 0..255 x platform x protocol_nr x has_port and every protocol name x platform, one ACE per table name on "
@@ -188,6 +188,21 @@ def run(ctx) -> None:
             if not mine():
                 continue
             case = {"platform": platform, "name": name}
+            # history on one Protocol object: reassign the line (also to the empty default) and read the views again
+            try:
+                live = Protocol(name, platform=platform)
+                for nxt in ("", "17", "gre", "", name, "0"):
+                    live.line = nxt
+                    want = names.proto_number(nxt) if nxt else 0
+                    shown = live.line
+                    if live.number != want or (shown.isdigit() and int(shown) != want) or \
+                            (not shown.isdigit() and names.PROTO.get(shown) != want) or (live.name and names.PROTO.get(live.name) != want):
+                        ctx.violation(case, "after reassigning Protocol.line the views do not describe the new line",
+                                      f"line={nxt!r}: number={live.number} line={shown!r} name={live.name!r}")
+                        break
+                ctx.count("protocol_reassign_histories")
+            except ValueError:
+                pass
             try:
                 obj = Protocol(name, platform=platform)
             except ValueError:
@@ -204,7 +219,8 @@ def run(ctx) -> None:
                 continue
             known = name in n2p
             tail = "ack log" if proto == "tcp" else "log"
-            for side, pspell in (("src", proto), ("dst", proto), ("dst", "6" if proto == "tcp" else "17"), ("dst2", proto)):
+            for side, pspell in (("src", proto), ("dst", proto), ("dst", "6" if proto == "tcp" else "17"), ("dst2", proto),
+                                 ("dst", "006" if proto == "tcp" else "017")):
                 if side == "src":
                     text = f"permit {pspell} any eq {name} any eq 1 {tail}"
                 elif side == "dst2":  # the name after a numeric operand (multi-port lists on IOS) is rejected elsewhere: keep one operand
